@@ -11,16 +11,18 @@ StackT(ks) == [kind |-> "stack", id |-> 0, agg |-> "", ts |-> << >>, sel |-> 0, 
 Trees ==
     { EnsT(a, <<Leaf(1), Leaf(2)>>) : a \in {"mean", "median", "min", "max"} }
     \cup { EnsT(a, <<Leaf(1), Leaf(2), Leaf(3)>>) : a \in {"mean", "median", "min", "max"} }
-    \cup { PipeT(t, Leaf(1)) : t \in {<<1>>, <<1, 2>>, <<2, 1>>, <<7>>, <<1, 7>>, <<7, 2>>} }
+    \cup { PipeT(t, Leaf(1)) : t \in {<<1>>, <<1, 2>>, <<2, 1>>, <<7>>, <<1, 7>>, <<7, 2>>, <<4>>, <<4, 1>>, <<2, 5>>} }
     \cup { MuxT(s, <<Leaf(1), Leaf(2), Leaf(3)>>) : s \in 1..3 }
     \cup { StackT(<<Leaf(1), Leaf(2)>>), StackT(<<Leaf(1), Leaf(2), Leaf(3)>>) }
     \cup { EnsT(a, <<Leaf(1), PipeT(<<1>>, Leaf(2))>>) : a \in {"mean", "max"} }          \* depth 2
     \cup { PipeT(<<1>>, EnsT(a, <<Leaf(1), Leaf(2)>>)) : a \in {"mean", "median"} }
     \cup { MuxT(2, <<Leaf(1), PipeT(<<2>>, Leaf(2))>>), PipeT(<<1>>, PipeT(<<2>>, Leaf(1))),
            StackT(<<Leaf(1), PipeT(<<1>>, Leaf(2))>>) }
-Init == stage = "tree" /\ cfg = [tree |-> Leaf(1), n |-> 6, fh |-> <<1>>, ups |-> << >>]
+Init == stage = "tree" /\ cfg = [tree |-> Leaf(1), n |-> 6, fh |-> <<1>>, ups |-> << >>, resel |-> 0]
 PickTree == /\ stage = "tree"
-            /\ \E t \in Trees, n \in {6, 7}, f \in {<<1, 2>>, <<1, 3>>, <<2>>} : cfg' = [cfg EXCEPT !.tree = t, !.n = n, !.fh = f]
+            /\ \E t \in Trees, n \in {6, 7}, f \in {<<1, 2>>, <<1, 3>>, <<2>>}, rs \in 0..3 :
+                   /\ (rs > 0 => (t.kind = "mux" /\ rs <= Len(t.kids) /\ rs # t.sel))
+                   /\ cfg' = [cfg EXCEPT !.tree = t, !.n = n, !.fh = f, !.resel = rs]
             /\ stage' = "ups"
 AddUp == /\ stage = "ups" /\ Len(cfg.ups) < MaxUps
          /\ \E len \in 1..2, u \in BOOLEAN :
